@@ -559,6 +559,12 @@ class Sum(monoidal.Sum, Diagram):
     def eval(self, contractor=None):
         return sum(term.eval(contractor=contractor) for term in self.terms)
 
+    def grad(self, var, **params):
+        unit = Sum([], self.dom, self.cod)
+        if var not in self.free_symbols:
+            return unit
+        return sum([term.grad(var, **params) for term in self.terms], unit)
+
 
 Diagram.id = Id
 Diagram.sum = Sum
